@@ -40,11 +40,17 @@ static void run(const std::vector<std::string> & t)
   size_t nclouds = vh::ru(t[9]);
   size_t at = 10;
   std::string out, sidetext;
+  // ONE estimator object and ONE point-set object for both clouds of a case: the second cloud (the rotated one) is
+  // written over the first IN PLACE — same address, same size, new coordinates — and the same estimator is asked again.
+  // Nothing the estimator keeps between calls (a cached kd-tree, neighbourhood buffers) may depend on the first cloud.
+  PointSet<PointType> points;
+  points.reserve(n);
+  NormalAndCurvatureEstimation<PointType> est(k);
   for (size_t c = 0; c < nclouds; ++c) {
     if (c == 1) {at += DIM * DIM;}
-    PointSet<PointType> points;
-    points.reserve(n);
-    for (size_t i = 0; i < n; ++i, at += DIM) {points.push_back(mk<PointType, DIM>(t, at));}
+    for (size_t i = 0; i < n; ++i, at += DIM) {
+      if (c == 0) {points.push_back(mk<PointType, DIM>(t, at));} else {points[i] = mk<PointType, DIM>(t, at);}
+    }
     NormalSet<PointType> normals(n);
     if (zero) {
       for (auto & v : normals) {v = PointType(PointType::Zero());}
@@ -71,7 +77,6 @@ static void run(const std::vector<std::string> & t)
         sidetext += "\n";
       }
     }
-    NormalAndCurvatureEstimation<PointType> est(k);
     switch (ov) {
       case 0: est.compute(points, normals); break;
       case 1: est.compute(points, kd, normals); break;
